@@ -1603,7 +1603,7 @@ void sm9_z256_fp12_pow(sm9_z256_fp12_t r, const sm9_z256_fp12_t a, const sm9_z25
 	uint64_t w;
 	int i, j;
 
-	assert(sm9_z256_cmp(k, SM9_Z256_N_MINUS_ONE) < 0);
+	assert(sm9_z256_cmp(k, SM9_Z256_N) < 0);
 	sm9_z256_fp12_set_one(t);
 
 	for (i = 3; i >=0; i--) {
